@@ -108,6 +108,8 @@ func runC02(c *core.Ctx) error {
 
 	// ---- R02.7
 	checkIdentifierSafety(c, prog)
+	r9 := c.NewRule("R02.9", "S1", "the scheme cache and the per-operation type storage stay in step: generateSecurities is the last step of generateOperation that can fail", 1)
+	checkLastFallibleStep(c, r9, prog, pkgGen, "Generator.generateOperation", "Generator).generateSecurities")
 	r8 := c.NewRule("R02.8", "S1", "reserved names seeded into uniqueness sets stay visible to the lookups they are meant for", 1)
 	checkUniquenessSetsKeepSeeds(c, r8, prog, pkgGen, pkgIR)
 
